@@ -262,6 +262,111 @@ func famOverlap(e entry[S], c rec) {
 	}
 }
 
+// mk builds N tracing affine maps (offset off distinguishes the functions of different compositions); boom > 0 makes
+// function number boom panic when *armed is set
+func mk(n, off int, trace *[]int, boom int, armed *bool) []func(S) S {
+	fs := make([]func(S) S, n)
+	for i := range fs {
+		i := i
+		fs[i] = func(s S) S {
+			*trace = append(*trace, off+i+1)
+			if boom == i+1 && *armed {
+				panic(fmt.Sprintf("boom %d", off+i+1))
+			}
+			a, b := coef(i)
+			return S{V: (a*s.V + b) % prime}
+		}
+	}
+	return fs
+}
+
+func seqOff(n, off int) []int {
+	xs := seqN(n)
+	for i := range xs {
+		xs[i] += off
+	}
+	return xs
+}
+
+// family 5: histories over several compositions. (a) build X, build Y (every other exported arity), then invoke X, Y, X:
+// what is built later may not change what was built earlier; (b) function k of X panics, the caller recovers, and X and
+// every other composition Y are invoked again: an abandoned invocation leaves nothing behind.
+func famHistory(e entry[S], c rec) {
+	call := func(what string, g func(S) S, n, off int, trace *[]int, arg int) bool {
+		*trace = nil
+		got := g(S{V: arg})
+		c.r.Evaluations++
+		if fmt.Sprint(*trace) != fmt.Sprint(seqOff(n, off)) {
+			c.fail("history-order", fmt.Sprintf("%s applied the functions %v, want each of its own once in the order %v", what, *trace, seqOff(n, off)), arg)
+			return false
+		}
+		if got.V != want(n, arg) {
+			c.fail("history-value", fmt.Sprintf("%s returned %d, want %d", what, got.V, want(n, arg)), arg)
+			return false
+		}
+		return true
+	}
+	for _, y := range table {
+		drv.Tick()
+		var trace []int
+		off := false
+		x := e.Build(mk(e.N, 0, &trace, 0, &off))
+		g := y.Build(mk(y.N, 100, &trace, 0, &off))
+		if len(trace) != 0 {
+			c.fail("eager", fmt.Sprintf("functions %v were applied while composing", trace), 0)
+			return
+		}
+		for _, arg := range []int{1, 5} {
+			if !call(fmt.Sprintf("X built by %s, invoked after %s built Y", e.Name, y.Name), x, e.N, 0, &trace, arg) ||
+				!call(fmt.Sprintf("Y built by %s after X (%s)", y.Name, e.Name), g, y.N, 100, &trace, arg) ||
+				!call(fmt.Sprintf("X (%s) invoked again after Y (%s)", e.Name, y.Name), x, e.N, 0, &trace, arg) {
+				return
+			}
+		}
+	}
+	for k := 1; k <= e.N; k++ {
+		drv.Tick()
+		var trace []int
+		armed := true
+		x := e.Build(mk(e.N, 0, &trace, k, &armed))
+		var others []func(S) S
+		for _, y := range table {
+			others = append(others, y.Build(mk(y.N, 100, &trace, 0, &armed)))
+		}
+		trace = nil
+		func() {
+			defer func() {
+				if r := recover(); r == nil {
+					c.fail("history-panic", fmt.Sprintf("function %d panicked but the invocation returned normally", k), 3)
+				}
+			}()
+			x(S{V: 3})
+		}()
+		c.r.Evaluations++
+		if fmt.Sprint(trace) != fmt.Sprint(seqN(k)) {
+			c.fail("history-panic", fmt.Sprintf("function %d panics: the functions applied were %v, want %v", k, trace, seqN(k)), 3)
+			return
+		}
+		armed = false
+		if !call(fmt.Sprintf("%s invoked again after its function %d panicked (recovered by the caller)", e.Name, k), x, e.N, 0, &trace, 2) {
+			return
+		}
+		armed = true
+		trace = nil
+		func() { defer func() { recover() }(); x(S{V: 3}) }()
+		armed = false
+		for j, y := range table {
+			if !call(fmt.Sprintf("%s invoked after function %d of %s panicked (recovered by the caller)", y.Name, k, e.Name), others[j], y.N, 100, &trace, 2) {
+				return
+			}
+			armed = true
+			trace = nil
+			func() { defer func() { recover() }(); x(S{V: 3}) }()
+			armed = false
+		}
+	}
+}
+
 func run(i int) drv.Result {
 	e, ea := table[i], tableAny[i]
 	r := drv.Result{Case: e.Name, Exhaustive: true, Nontrivial: 1}
@@ -269,6 +374,7 @@ func run(i int) drv.Result {
 	famValues(e, c)
 	famNil(ea, c)
 	famReentrant(e, c)
+	famHistory(e, c)
 	done := make(chan struct{})
 	go func() { famOverlap(e, c); close(done) }()
 	select {
@@ -278,14 +384,14 @@ func run(i int) drv.Result {
 		r.Exhaustive = false
 		r.Note = "the overlapping-invocation family did not finish within 60 s"
 	}
-	r.Sample = map[string]any{"function": e.Name, "arity": e.N, "families": "affine maps with call trace (5 arguments x 2 invocations); nil interface values through any-typed pipeline (4 nil patterns x 4 arguments); re-entrant invocation from each position; two overlapping invocations under every function-level interleaving (N<=5) or every park-point (N>5)", "evaluations": r.Evaluations}
+	r.Sample = map[string]any{"function": e.Name, "arity": e.N, "families": "affine maps with call trace (5 arguments x 2 invocations); nil interface values through any-typed pipeline (4 nil patterns x 4 arguments); re-entrant invocation from each position; two overlapping invocations under every function-level interleaving (N<=5) or every park-point (N>5); histories: build X, build Y, invoke X/Y/X for every other arity Y, and function k panics (recovered) followed by invocations of X and of every Y", "evaluations": r.Evaluations}
 	return r
 }
 
 func main() {
 	drv.Main(drv.Property{
 		ID: "C20", Level: "exploration", PanicIsViolation: true, MemLimitGB: 4,
-		Rule:        "one case = one exported PipeN function of internal/pipe (tables generated from the staged source, so a new arity is picked up); per function: (1) 5 arguments x 2 invocations with pairwise non-commuting affine maps and a call trace (order, exactly-once, no application at composition time); (2) the same function instantiated at type any with nil interface values entering and travelling through the pipeline (4 patterns x 4 arguments); (3) a re-entrant invocation issued from inside function k, for every k; (4) two overlapping invocations of one composition, gated at function granularity: all C(2N,N) interleavings for N<=5, all N+1 park points for larger N; every case is non-trivial (any transposition, omission, duplication or shared per-composition state changes trace, value or counters)",
+		Rule:        "one case = one exported PipeN function of internal/pipe (tables generated from the staged source, so a new arity is picked up); per function: (1) 5 arguments x 2 invocations with pairwise non-commuting affine maps and a call trace (order, exactly-once, no application at composition time); (2) the same function instantiated at type any with nil interface values entering and travelling through the pipeline (4 patterns x 4 arguments); (3) a re-entrant invocation issued from inside function k, for every k; (4) two overlapping invocations of one composition, gated at function granularity: all C(2N,N) interleavings for N<=5, all N+1 park points for larger N; (5) histories over two compositions: X built, then Y built (every exported arity), then X, Y, X invoked; and function k of X panics (for every k, recovered by the caller), after which X and every other composition are invoked again; every case is non-trivial (any transposition, omission, duplication or shared per-composition state changes trace, value or counters)",
 		Assumptions: []string{"arities outside the generated table do not exist in the package", "argument values beyond those tried are covered by parametricity of the generic functions", "overlapping invocations are serialized by gates: data races inside PipeN itself are not modelled"},
 		Cases: func(string) (int, func(int) string) {
 			return len(table), func(i int) string { return table[i].Name }
